@@ -186,6 +186,7 @@ func RunHarnesses(l *Loaded, fns []*ssa.Function, cfg RunConfig) (map[string]*Ha
 				}()
 				in.H = newHarnessRun("init")
 				in.fpBits = map[*Term]*Term{}
+	in.fpBitsByKey = map[string]*Term{}
 				in.nondetCount = map[string]int{}
 				in.concNondets = map[string]uint64{}
 		in.factMap = map[string]bool{}
@@ -416,6 +417,7 @@ func NewConcreteInterp(l *Loaded, cfg RunConfig) (*Interp, func(), error) {
 		}()
 		in.H = newHarnessRun("init")
 		in.fpBits = map[*Term]*Term{}
+	in.fpBitsByKey = map[string]*Term{}
 		in.nondetCount = map[string]int{}
 		in.concNondets = map[string]uint64{}
 		in.factMap = map[string]bool{}
